@@ -128,7 +128,17 @@ func encodeLength(out *bytes.Buffer, length int) (err error) {
 	return
 }
 
+// maxBERDepth bounds the nesting of constructed encodings that ber2der follows. The
+// transcoder recurses once per level and re-buffers each subtree when it writes the
+// definite lengths, so unbounded nesting costs stack and memory out of proportion to
+// the input; PKCS#7 structures are a handful of levels deep.
+const maxBERDepth = 128
+
 func readObject(ber []byte, offset int) (asn1Object, int, error) {
+	return readObjectDepth(ber, offset, 0)
+}
+
+func readObjectDepth(ber []byte, offset int, depth int) (asn1Object, int, error) {
 	//fmt.Printf("\n====> Starting readObject at offset: %d\n\n", offset)
 	errTruncated := errors.New("ber2der: BER data is truncated")
 	tagStart := offset
@@ -213,11 +223,14 @@ func readObject(ber []byte, offset int) (asn1Object, int, error) {
 			content:  ber[offset:contentEnd],
 		}
 	} else {
+		if depth >= maxBERDepth {
+			return nil, 0, errors.New("ber2der: BER data is nested too deeply")
+		}
 		var subObjects []asn1Object
 		for (offset < contentEnd) || indefinite {
 			var subObj asn1Object
 			var err error
-			subObj, offset, err = readObject(ber, offset)
+			subObj, offset, err = readObjectDepth(ber, offset, depth+1)
 			if err != nil {
 				return nil, 0, err
 			}
